@@ -61,6 +61,8 @@ pub const LINE_LIMIT: u64 = 50_000;
 pub static CASE_LIMIT: AtomicU64 = AtomicU64::new(LINE_LIMIT);
 pub static CLONES: AtomicU64 = AtomicU64::new(0);
 pub static CLONEPANIC: AtomicU64 = AtomicU64::new(u64::MAX);
+/// `clonepoint`: `Clone::clone` of an element is a scheduling point (impl-only cases)
+pub static CLONEPOINT: std::sync::atomic::AtomicBool = std::sync::atomic::AtomicBool::new(false);
 /// logged destructions of (non-clone) elements so far in this case, and the one that panics
 pub static DROPS: AtomicU64 = AtomicU64::new(0);
 pub static DROPPANIC: AtomicU64 = AtomicU64::new(u64::MAX);
